@@ -84,7 +84,7 @@ func BuildEnv() *Env {
 		og.Params.ExpirationBlockCount = 3
 		og.Params.InactivePenaltyDuration = uint64(5 * time.Second)
 		tg.Params.SigningPeriod = 2
-		tg.Params.CreationPeriod = 3
+		tg.Params.CreationPeriod = 6
 		tg.Params.MaxSigningAttempt = 2
 		tg.Params.MaxDESize = 40
 		bg.Params.InactivePenaltyDuration = 5 * time.Second
